@@ -83,8 +83,19 @@ template<class I> typename Builder<I>::K* Builder<I>::parse(std::size_t dim) {
 	if (c == "LIN") return new LinearKernel<I>();
 	if (c == "POLY") { unsigned d = std::stoul(next()); double off = num(next()); bool dp = next() == "1"; bool un = next() == "1"; return new PolynomialKernel<I>(d, off, dp, un); }
 	if (c == "MONO") return new MonomialKernel<I>(std::stoul(next()));
-	if (c == "RBF") { double g = num(next()); bool un = next() == "1"; return new GaussianRbfKernel<I>(g, un); }
-	if (c == "SCALED") { double f = num(next()); return new ScaledKernel<I>(parse(dim), f); }
+	// every second kernel with a setter is built in two steps (default construction, then the setter): both routes must
+	// yield the same kernel (a flag or cache computed by the constructor must follow the setter)
+	static unsigned two_step = 0;
+	if (c == "RBF") {
+		double g = num(next()); bool un = next() == "1";
+		if (++two_step % 2) { GaussianRbfKernel<I>* k = new GaussianRbfKernel<I>(0.5, un); k->setGamma(g); return k; }
+		return new GaussianRbfKernel<I>(g, un);
+	}
+	if (c == "SCALED") {
+		double f = num(next());
+		if (++two_step % 2) { ScaledKernel<I>* k = new ScaledKernel<I>(parse(dim)); k->setFactor(f); return k; }
+		return new ScaledKernel<I>(parse(dim), f);
+	}
 	if (c == "WSUM") {
 		std::size_t n = std::stoul(next()); RealVector lw(n - 1); bool any = false;
 		for (std::size_t i = 0; i + 1 < n; ++i) { lw(i) = num(next()); any = any || lw(i) != 0; }
